@@ -34,6 +34,8 @@ func c12Images(tier string) []c12Image {
 		{Name: "deep-in-block", Cfg: blk, Trace: "put b F 20000; put a S; put b S; put a F 9000; put b S; put a S"},
 		{Name: "multi-chunk", Cfg: blk, Trace: "put a S; put b M; put a S; put b B 3; put a S"},
 		// the active file spans two blocks: damage in its first block is not a torn tail
+		// a LIVE record of three chunks (and a record behind it) in a file that is no longer the active one
+		{Name: "older-multi-chunk-live", Cfg: blk, Trace: "put a S; put b M; put a S; put a F 40000"},
 		{Name: "active-2-blocks", Cfg: blk, Trace: "put a S; put b F 40000; put a S; put b S"},
 	}
 	if tier == "thorough" {
